@@ -41,6 +41,8 @@ func propC02(c *Ctx) {
 	// numbers that end in an incomplete exponent: the characters after the mantissa are tokens of their own (2e+x is 2 e + x,
 	// no sentence), astral characters anywhere
 	for _, t := range []string{"2e+x", "7E+(3)", "1.5e+ 2", "2e-x", "3E-", "2e", "2e+", "1e+5x", "2e+5", "2e-5", "1.e+x", ".5e+x", "2e + x", "2 e+x", "2e+-3", "2e++3", "x + 2e+",
+		"3.5e38", "1e39", "4e38 + 1", "1 + 1e999", "99999999999999999999", "a[99999999999999999999]", "-3.5e38",
+		"\f", "\v", "\x1f", " \f ", "/* only a comment */", "/* c */ \f", "\x00", "\x01 \x02",
 		"1 + 😀 2", "😀", "1 😀", "a + \U00010000", "\uffff 1", "1 \uffff + 2", "f(😀)", "'😀' + 😀"} {
 		runParseCase(c, t, "incomplete-exponent / astral")
 	}
